@@ -156,3 +156,109 @@ Theorem C16_stream_readfully_fixed_total :
     snd (read_fully true s) <= len (concat (s_chunks s)).
 Proof. exact read_fully_fixed_total. Qed.
 Print Assumptions C16_stream_readfully_fixed_total.
+
+(* ------------------------------------------------------------------------------------------ *)
+(* Open-time parsing of the index (embedded/tbtree) and of the binary-linking tree
+   (embedded/ahtree): Store/OpenTime.v. int64 / uint32 arithmetic wraps as in Go.             *)
+From V Require Import Store.OpenTime Store.OpenTimeTotal.
+
+(* Code as found: a commit-log entry of the index whose initialHLogSize has the top bit set passes
+   isValid and makes OpenWith panic inside io.SectionReader (Checksum over a range whose bounds
+   wrapped around). *)
+Theorem C16_tbtree_clog_entry_refuted :
+  exists b : bytes, len b = 100 /\ tb_entry_check false b = Panic.
+Proof. exact tb_entry_check_refuted. Qed.
+Print Assumptions C16_tbtree_clog_entry_refuted.
+
+(* Repaired isValid: for EVERY 100-byte commit-log entry, deserialising it, validating it and
+   setting up the two Checksum ranges neither panics nor loops, and an accepted entry has a
+   non-negative root offset. *)
+Theorem C16_tbtree_clog_entry_fixed_total :
+  forall b : bytes, 100 <= len b ->
+    tb_entry_check true b <> Panic /\ tb_entry_check true b <> Err EFuel /\
+    (forall off, tb_entry_check true b = Ok (Some off) -> (0 <= off)%Z).
+Proof. exact tb_entry_check_fixed_total. Qed.
+Print Assumptions C16_tbtree_clog_entry_fixed_total.
+
+(* The parameters kept in the commit-log metadata (any byte string as metadata block): decoding
+   them never panics; as found any 64-bit MAX_NODE_SIZE is accepted (witness: 2^40, the size of
+   every node read buffer and snapshot buffer made afterwards: an out-of-memory crash) ... *)
+Theorem C16_tbtree_open_params_total :
+  forall (fixed : bool) (md : bytes) (okey oval : Z),
+    tb_open_params fixed md okey oval <> Panic /\ tb_open_params fixed md okey oval <> Err EFuel.
+Proof. exact tb_open_params_safe. Qed.
+Print Assumptions C16_tbtree_open_params_total.
+
+Theorem C16_tbtree_open_params_refuted :
+  exists md : bytes, tb_open_params false md 32 64 = Ok (1099511627776, 32, 64)%Z /\
+                     snd (tb_reader_alloc 1099511627776) = 1099511627776.
+Proof. exact tb_open_params_refuted. Qed.
+Print Assumptions C16_tbtree_open_params_refuted.
+
+(* ... repaired: accepted parameters satisfy the constraints options are validated against, and
+   the buffer made from maxNodeSize is at most 128 MiB. *)
+Theorem C16_tbtree_open_params_fixed_bounds :
+  forall (md : bytes) (okey oval mns mk mv : Z),
+    tb_open_params true md okey oval = Ok (mns, mk, mv) ->
+    (0 < mk <= 65535)%Z /\ (0 < mv <= 65535)%Z /\ (0 < mns <= tb_max_node_size)%Z /\
+    fst (tb_reader_alloc mns) = Ok tt /\ snd (tb_reader_alloc mns) <= 134217728.
+Proof. exact tb_open_params_fixed_bounds. Qed.
+Print Assumptions C16_tbtree_open_params_fixed_bounds.
+
+(* Node parsing (readNodeAt) on EVERY content of the nodes log (as a string of bytes): a node or an
+   error, never a panic; memory at most 4 bytes per byte of the log behind the node's offset plus
+   the children/values array of one count field (16 * 65535 + 64) plus one key/value buffer whose
+   bytes do not arrive (65535); repaired code: never an inner node without children. *)
+Theorem C16_tbtree_read_node_total :
+  forall (fixed : bool) (s : bytes), bytes_ok s = true ->
+    (fst (read_node fixed s) <> Panic /\ fst (read_node fixed s) <> Err EFuel) /\
+    snd (read_node fixed s) <= 4 * len s + 16 * 65535 + 64 + 65535 /\
+    (fixed = true -> fst (read_node fixed s) <> Ok (NInner [])).
+Proof. exact read_node_total. Qed.
+Print Assumptions C16_tbtree_read_node_total.
+
+(* as found: the three bytes 00 00 00 parse as an inner node without children (innerNode.get then
+   indexes nodes[0]: index out of range) *)
+Theorem C16_tbtree_read_node_refuted : fst (read_node false [0; 0; 0]) = Ok (NInner []).
+Proof. exact read_node_refuted. Qed.
+Print Assumptions C16_tbtree_read_node_refuted.
+
+(* timestamp file: as found a file shorter than 8 bytes panics OpenWith (Uint64 on a short slice);
+   repaired: every content gives a value *)
+Theorem C16_tbtree_ts_file_refuted : exists b : bytes, len b < 8 /\ ts_read false b = Panic.
+Proof. exact ts_read_refuted. Qed.
+Print Assumptions C16_tbtree_ts_file_refuted.
+
+Theorem C16_tbtree_ts_file_fixed_total : forall b : bytes, exists v, ts_read true b = Ok v.
+Proof. exact ts_read_fixed_total. Qed.
+Print Assumptions C16_tbtree_ts_file_fixed_total.
+
+(* ahtree.OpenWith, last commit-log entry -> payload-log size: as found (pOff = 2^63-1, pSize = 9)
+   the int64 sum wraps to a negative size that passes the file-size check; repaired: never a panic
+   and an accepted entry puts the size inside the payload log. *)
+Theorem C16_ahtree_open_refuted :
+  exists p d, ah_open false 36 ah_entry_witness 24 1048576 = Ok (p, d) /\ (p < 0)%Z.
+Proof. exact ah_open_refuted. Qed.
+Print Assumptions C16_ahtree_open_refuted.
+
+Theorem C16_ahtree_open_fixed_total :
+  forall (clog_size : Z) (entry : bytes) (pf df : Z), 12 <= len entry -> (0 <= pf)%Z ->
+    (ah_open true clog_size entry pf df <> Panic /\ ah_open true clog_size entry pf df <> Err EFuel) /\
+    (forall p d, ah_open true clog_size entry pf df = Ok (p, d) -> (0 <= p <= pf)%Z).
+Proof. exact ah_open_fixed_total. Qed.
+Print Assumptions C16_ahtree_open_fixed_total.
+
+(* ahtree.DataAt: as found the 32-bit size field of a commit-log entry is allocated unchecked
+   (256 MiB for a 64-byte payload log in the witness, up to 4 GiB); repaired: at most the size of
+   the payload log. *)
+Theorem C16_ahtree_data_at_refuted :
+  exists entry : bytes, len entry = 12 /\ snd (ah_data_at false 64 entry) = 268435456.
+Proof. exact ah_data_at_refuted. Qed.
+Print Assumptions C16_ahtree_data_at_refuted.
+
+Theorem C16_ahtree_data_at_fixed_total :
+  forall (plog : Z) (entry : bytes), 12 <= len entry -> (0 <= plog)%Z ->
+    (fst (ah_data_at true plog entry) <> Panic /\ fst (ah_data_at true plog entry) <> Err EFuel) /\
+    snd (ah_data_at true plog entry) <= Z.to_N plog.
+Proof. exact ah_data_at_fixed_total. Qed.
+Print Assumptions C16_ahtree_data_at_fixed_total.
